@@ -108,6 +108,15 @@ func TestCampaign(t *testing.T) {
 				env.Stats.Label("known_hit:" + r.VKey)
 				return
 			}
+			if os.Getenv("VERIF_SURVEY") == "1" {
+				// survey mode (development aid): record every distinct violation key, keep going
+				env.Stats.Label("viol:" + r.VKey)
+				d := filepath.Join(os.Getenv("VERIF_SURVEY_DIR"), sanitize(r.VKey))
+				if !fileExists(d) {
+					core.SaveCase(d, p.ID, c, r)
+				}
+				return
+			}
 			fail(c, r)
 			rt.Fatalf("%s", r.Violation)
 		}
@@ -228,4 +237,19 @@ func closeResources() {
 func fileExists(p string) bool {
 	_, err := os.Stat(p)
 	return err == nil
+}
+
+func sanitize(s string) string {
+	var b strings.Builder
+	for _, r := range s {
+		if r >= 'a' && r <= 'z' || r >= 'A' && r <= 'Z' || r >= '0' && r <= '9' || r == '.' || r == '-' || r == '_' {
+			b.WriteRune(r)
+		} else {
+			b.WriteByte('_')
+		}
+	}
+	if b.Len() > 100 {
+		return b.String()[:100]
+	}
+	return b.String()
 }
